@@ -4,6 +4,7 @@
   randomizers.  (Single-point completeness: `C01.marlin_complete`.)
 -/
 import PCV.Proofs.MarlinBatch
+import PCV.Proofs.MarlinPerm
 import PCV.Props.C01_Marlin
 set_option linter.unusedSectionVars false
 
@@ -53,6 +54,40 @@ theorem marlin_batch_complete_nonhiding {ck : CK F} {vk : VK F} {g γ β h : F} 
   obtain ⟨t, ht, hte⟩ := List.mem_map.1 hst
   exact (hnh t ht).2 rs (hte ▸ hrs)
 
+/-- **Order independence (prover).** `batch_open` matches polynomials and states by label: listing the
+(polynomial, state) pairs in any other order (distinct labels) gives the same proofs and leaves the same
+challenges. -/
+theorem marlin_batch_open_order (ck : CK F) (polys polys' : List (LPoly F)) (sts sts' : List (Rand F))
+    (qs : List (Query F)) (ξs : List F)
+    (hp : (polys.zip sts).Perm (polys'.zip sts'))
+    (hnd : ((polys.zip sts).map fun x => x.1.label).Nodup) :
+    batchOpen ck polys sts qs ξs = batchOpen ck polys' sts' qs ξs :=
+  batchOpen_perm ck polys polys' sts sts' qs ξs hp hnd
+
+/-- **Order independence (verifier).** `batch_check` matches commitments by label: any permutation of
+the commitment list (distinct labels) gives the same decision — so prover and verifier need not agree
+on any order. -/
+theorem marlin_batch_check_order (vk : VK F) (comms comms' : List (LComm F)) (qs : List (Query F))
+    (evals : List ((Label × F) × F)) (πs : List (KZG.Proof F)) (ξs rs : List F)
+    (hp : comms.Perm comms') (hnd : (comms.map fun c => c.label).Nodup) :
+    batchCheck vk comms qs evals πs ξs rs = batchCheck vk comms' qs evals πs ξs rs :=
+  batchCheck_perm vk comms comms' qs evals πs ξs rs hp hnd
+
+/-- **Order independence (queries).** The query set is a `BTreeSet`: the model takes it in set order
+(`TraitDefault.querySet`), which is the same list for any two query lists with the same elements —
+listed in any order, any number of times. -/
+theorem marlin_batch_query_order (ck : CK F) (vk : VK F) (ltP : F → F → Bool)
+    (hlt : QS.StrictTotal ltP) (hirr : ∀ a, ltP a a = false)
+    (polys : List (LPoly F)) (sts : List (Rand F)) (comms : List (LComm F))
+    (qs qs' : List (Query F)) (h : ∀ q, q ∈ qs ↔ q ∈ qs')
+    (evals : List ((Label × F) × F)) (πs : List (KZG.Proof F)) (ξs rs : List F) :
+    batchOpen ck polys sts (TraitDefault.querySet ltP qs) ξs
+        = batchOpen ck polys sts (TraitDefault.querySet ltP qs') ξs ∧
+      batchCheck vk comms (TraitDefault.querySet ltP qs) evals πs ξs rs
+        = batchCheck vk comms (TraitDefault.querySet ltP qs') evals πs ξs rs := by
+  rw [TraitDefault.querySet_congr ltP hlt hirr qs qs' h]
+  exact ⟨rfl, rfl⟩
+
 /-! non-vacuity over `ZMod 101` (`g = 3`, `β = 2`): two polynomials, two point labels, the second
 polynomial under both -/
 def exBatch : List (Trip K) :=
@@ -66,5 +101,11 @@ example : batchCheck exVK (exBatch.map (·.2.2)) exQueries
     [(([97], 5), evalPoly [1, 2, 3] 5), (([98], 5), evalPoly [4, 0, 1] 5), (([98], 9), evalPoly [4, 0, 1] 9)]
     [⟨22, none⟩, ⟨56, none⟩] [11, 13, 17, 19] [29] = .ok true := by decide
 example : ∀ t ∈ exBatch, t.2.2.comm.comm = 3 * evalPoly t.1.poly 2 := by decide
+/-- the reversed lists give the same proofs and the same decision -/
+example : batchOpen exCK (exBatch.reverse.map (·.1)) (exBatch.reverse.map (·.2.1)) exQueries [11, 13, 17, 19]
+    = .ok ([⟨22, none⟩, ⟨56, none⟩], [19]) := by decide
+example : batchCheck exVK (exBatch.reverse.map (·.2.2)) exQueries
+    [(([97], 5), evalPoly [1, 2, 3] 5), (([98], 5), evalPoly [4, 0, 1] 5), (([98], 9), evalPoly [4, 0, 1] 9)]
+    [⟨22, none⟩, ⟨56, none⟩] [11, 13, 17, 19] [29] = .ok true := by decide
 
 end PCV.C01
